@@ -95,4 +95,9 @@ BUILT = {
   level='exploration',
   text='1-3 translation units with repeated/tentative/extern/static/thread-local object declarations (also at block scope), plain/static/static inline/extern inline functions with drawn call graphs, function-pointer initializers before or after definitions and redeclarations; built as default, -fno-common, -fPIC, -fPIC + shared library and -static; outputs from the main thread and a second thread and the external symbol tables / set of emitted static inline functions must match both references.',
   note='trusts gcc/clang linkage semantics and -O0 inline emission; D58 recorded (non-PIC access to TLS in a shared library), the shared configuration builds main with -fPIC'),
+ 'C14': dict(
+  technique='exhaustive fault enumeration against a model of the driver contract (command shapes x input kinds x single injected failure point, faults injected through PATH/argv[0] shims and observed through an LD_PRELOAD mkstemp logger) + Hypothesis-generated concurrent driver bundles compared with their solo runs',
+  level='fault_enumeration',
+  text='Every command shape (-E/-S/-c/link, with/without -o, 1-3 inputs of six kinds) is run with every single point of failure of its subprocess pipeline (k-th cc1, k-th as, ld; exit status or signal; unwritable output): exit status, exactly-the-right outputs, untouched outputs of failed units and removal of every temporary are checked against a 60-line model (20 k combinations quick, all 30 k thorough). Concurrent bundles of 2-12 drivers in one directory must each behave as when run alone.',
+  note='the enumerated space is finite and complete in the thorough tier (quick thins permutations of three distinct input kinds); kernel-level interleavings of concurrent drivers are sampled, not controlled'),
 }
